@@ -24,5 +24,5 @@ MANIFEST = dict(
 )
 
 # end-to-end tie (integrator): real caching clients against the fake server, direct oracle only (docs/csc.md)
-SPEC["observers"].append(dict(cmd="obs_csc", args=["-oracle", "c07"], n={"quick": 150, "thorough": 4000}))
+SPEC["observers"].append(dict(cmd="obs_csc", args=["-oracle", "c07"], n={"quick": 150, "thorough": 4000}, corpus=False))
 SPEC["rule"] += "; obs_csc: concurrent cached readers (DoCache / DoMultiCache / MGetCache) on a real client against the fake server with writers on another connection, per-key and flush invalidations, PX / virtual-clock expiries, disconnects and aborted transactions, checked by the C07 oracle of docs/csc.md"
